@@ -55,6 +55,16 @@ CHECKS = {
              "all-ones digits, just below 1/2 and just below 1; TLC checks the exact relation, the stated bound, every generated key row (digit-0 rows trivial), lwePhase consistency and intact red zones.",
         note="Noise statistics of noisy keys are not part of this check (see C02/C07). Full 2^32 enumeration at 32 bits is replaced by the exhaustive W-bit model + boundary families.",
         design="§6 C08"),
+    "C03": dict(
+        category="model_checking",
+        technique="TLA+ spec LweScheme (Encrypt/Decrypt with draws as arguments) model-checked by TLC; real encrypt/decrypt API round trips and chosen-error decryptions validated by TLC (Table_C03)",
+        text="TLC checks on every sample, key, message and error of a small instance that decryption returns the encoding of the message nearest to the phase and inverts encryption whenever M*|e| < 1/2 "
+             "(non powers of two included), and that trivial samples decrypt under every key. The real API is then exercised: lweSymEncrypt/Decrypt over n in {1,2,3,8,9,500,501,630,1024}, 20 message-space sizes, "
+             "all messages for small M, noise at the decryptable maximum (M*alpha = 1/20), tiny and zero, interleaved; samples with chosen mask and error right up to the decoding radius; trivial samples; "
+             "bootsSymEncrypt/Decrypt for both parameter sets; TLWE constant and polynomial messages (k = 1,2); TGSW integer and polynomial messages for four (k,l,Bgbit) and every Msize = 2^j <= Bg. "
+             "Each row (message, encoding, phase, sample when small, decryption) is decided by TLC: decryption equals the message exactly and is the nearest-message encoding of the observed phase.",
+        note="Keys/seeds are sampled (seeded from VERIF_SEED). TLWE/TGSW run at N = 1024 only (the FFT back-ends hard-wire it). The TLWE/TGSW model-level theorem lives in RingScheme (C09).",
+        design="§6 C03"),
 }
 
 NOT_YET = {}
